@@ -9,6 +9,12 @@
 //! roles) right after a successful createPair, as the repo's tests do instead of the async
 //! issue flow.
 //!
+//! The `EnableSwapByUserModule` of the router is driven too: two real `simple-lock` contracts
+//! (LOCKED collections 501 = "LKA-abcdef", 502 = "LKB-abcdef") mint the locked LP tokens a user
+//! pays to `setSwapEnabledByUser`.  A locked-token class is `coll orig unlock` in op text
+//! (`orig` = a pool token id or a pair id for its LP token) and `coll/orig/unlock` in results;
+//! the SFT nonce it got from the simple-lock is looked up in the world's own table.
+//!
 //! `#[only_owner]` lives in the generated endpoint wrapper, which a white-box call bypasses.
 //! The world therefore reads the `only_owner` flag of each endpoint from the compiled contract's
 //! own ABI (`router::AbiProvider`) and, when it is set, runs the framework's
@@ -21,6 +27,7 @@ use std::collections::{HashMap, HashSet};
 
 use multiversx_sc::codec::multi_types::{MultiValue2, MultiValue4, OptionalValue};
 use multiversx_sc::contract_base::{ContractAbiProvider, ContractBase};
+use multiversx_sc::storage::mappers::StorageTokenWrapper;
 use multiversx_sc::types::{Address, EsdtLocalRole, ManagedAddress, MultiValueEncoded};
 use multiversx_sc_scenario::{
     managed_address, managed_buffer, managed_token_id, rust_biguint, whitebox_legacy::*, DebugApi,
@@ -36,6 +43,9 @@ use pair::pair_actions::views::ViewsModule as _;
 use pair::Pair as _;
 use pausable::{PausableModule as _, State};
 use router::config::ConfigModule as _;
+use router::enable_swap_by_user::EnableSwapByUserModule as _;
+use simple_lock::locked_token::LockedTokenModule as _;
+use simple_lock::SimpleLock as _;
 use router::factory::FactoryModule as _;
 use router::multi_pair_swap::MultiPairSwap as _;
 use router::Router as _;
@@ -47,12 +57,22 @@ const TEMPLATE: u64 = 300;
 const STRANGER: u64 = 400;
 const FOREIGN_BASE: u64 = 900;
 const PAIR_BASE: u64 = 1000;
+const LOCK_A: u64 = 501;
+const LOCK_B: u64 = 502;
+/// what `setSwapEnabledByUser` must leave behind (property text / router constants)
+const USER_TOTAL_FEE: u64 = 1_000;
+const USER_SPECIAL_FEE: u64 = 50;
 
 type PairObj = pair::ContractObj<DebugApi>;
 type PairW = ContractObjWrapper<PairObj, fn() -> PairObj>;
 type RouterObj = router::ContractObj<DebugApi>;
 type RouterW = ContractObjWrapper<RouterObj, fn() -> RouterObj>;
 type MBig = multiversx_sc::types::BigUint<DebugApi>;
+type LockObj = simple_lock::ContractObj<DebugApi>;
+type LockW = ContractObjWrapper<LockObj, fn() -> LockObj>;
+fn lock_builder() -> LockObj {
+    simple_lock::contract_obj()
+}
 
 fn pair_builder() -> PairObj {
     pair::contract_obj()
@@ -67,6 +87,12 @@ fn mbig(x: &BigUint) -> MBig {
     MBig::from_bytes_be(&x.to_bytes_be())
 }
 fn tok_bytes(i: usize) -> Vec<u8> {
+    if i as u64 == LOCK_A {
+        return b"LKA-abcdef".to_vec();
+    }
+    if i as u64 == LOCK_B {
+        return b"LKB-abcdef".to_vec();
+    }
     if i == 0 || i > 26 {
         b"notvalid".to_vec()
     } else {
@@ -79,6 +105,12 @@ fn lp_bytes(id: u64) -> Vec<u8> {
 /// token bytes -> model id (pool tokens 1..26, LP token of pair id -> id, anything else 0)
 fn tok_id(b: &[u8]) -> u64 {
     let s = String::from_utf8_lossy(b).to_string();
+    if s == "LKA-abcdef" {
+        return LOCK_A;
+    }
+    if s == "LKB-abcdef" {
+        return LOCK_B;
+    }
     if let Some(rest) = s.strip_prefix("TK") {
         if rest.len() == 8 && rest.ends_with("-abcdef") {
             let c = rest.as_bytes()[0];
@@ -119,6 +151,16 @@ struct PSnap {
     fee_on: bool,
     rep1: u64, // token ids the pair itself reports
     rep2: u64,
+    adder: u64, // `initial_liquidity_adder` as stored by the pair (0 = none)
+}
+
+/// a class of LOCKED tokens minted by one of the simple-lock contracts
+#[derive(Clone, PartialEq, Debug)]
+struct LKey {
+    coll: u64,
+    orig: u64,
+    unlock: u64,
+    nonce: u64,
 }
 
 #[derive(Clone, PartialEq, Debug, Default)]
@@ -131,8 +173,12 @@ struct Snap {
     rb: Vec<BigUint>,          // router balances of tokens 1..k
     rlp: Vec<BigUint>,         // router balances of every LP token
     pairs: Vec<PSnap>,
-    users: Vec<(Vec<BigUint>, Vec<BigUint>)>, // per account: pool tokens 1..k, LP tokens
+    users: Vec<(Vec<BigUint>, Vec<BigUint>, Vec<BigUint>)>, // per account: pool tokens 1..k, LP tokens, locked classes
     burn: Vec<BigUint>,
+    epoch: u64,
+    wl: Vec<u64>,                          // getCommonTokensForUserPairs, iteration order
+    cfg: Vec<(u64, u64, BigUint, u64)>,   // (common token, locked token, min value, min period)
+    rlk: Vec<BigUint>,                     // router balances of every locked class
 }
 
 #[derive(Clone, Debug)]
@@ -159,6 +205,11 @@ struct RouterWorld {
     next_dest: u64,
     only_owner: HashMap<String, bool>,
     pending: Vec<String>,
+    locks: Vec<LockW>,
+    lkeys: Vec<LKey>,
+    epoch: u64,
+    /// pairs (with liquidity) the owner paused through the router and has not resumed since
+    owner_paused: HashSet<u64>,
 }
 
 fn f_amount_out(total: u64, a: &BigUint, rin: &BigUint, rout: &BigUint) -> BigUint {
@@ -213,14 +264,43 @@ impl RouterWorld {
     fn oo(&self, endpoint: &str) -> bool {
         *self.only_owner.get(endpoint).unwrap_or(&false)
     }
+    /// token ids whose `enable_swap_by_user_config` cell the state line reports
+    fn cfg_toks(&self) -> Vec<u64> {
+        let mut v: Vec<u64> = (1..=(self.ntok as u64 + 1)).collect();
+        v.push(LOCK_A);
+        v.push(LOCK_B);
+        v
+    }
+    /// bytes of an asset named in op text: pool token 1..26, or the LP token of pair <id>
+    fn asset_bytes(&self, id: u64) -> Vec<u8> {
+        if id >= FOREIGN_BASE && self.pair_ix(id).is_some() {
+            lp_bytes(id)
+        } else if id <= 26 {
+            tok_bytes(id as usize)
+        } else {
+            b"notvalid".to_vec()
+        }
+    }
+    fn lock_ix(coll: u64) -> Option<usize> {
+        match coll {
+            LOCK_A => Some(0),
+            LOCK_B => Some(1),
+            _ => None,
+        }
+    }
+    fn lkey_ix(&self, coll: u64, orig: u64, unlock: u64) -> Option<usize> {
+        self.lkeys.iter().position(|k| k.coll == coll && k.orig == orig && k.unlock == unlock)
+    }
 
     fn psnap(&mut self, ix: usize) -> PSnap {
         let mut s = PSnap::default();
         let (mut r1, mut r2, mut sup, mut st, mut tot, mut sp, mut fee_on) =
             (BigUint::zero(), BigUint::zero(), BigUint::zero(), 0u8, 0u64, 0u64, false);
         let (mut f, mut g): (Vec<u8>, Vec<u8>) = (vec![], vec![]);
+        let mut adder: Option<Address> = None;
         self.b
             .execute_query(&self.pairs[ix].w, |sc| {
+                adder = sc.initial_liquidity_adder().get().map(|a| a.to_address());
                 let (a, b, c) = sc.get_reserves_and_total_supply().into_tuple();
                 r1 = to_big(&a);
                 r2 = to_big(&b);
@@ -246,6 +326,7 @@ impl RouterWorld {
         s.fee_on = fee_on;
         s.rep1 = tok_id(&f);
         s.rep2 = tok_id(&g);
+        s.adder = adder.map(|a| self.id_of(&a)).unwrap_or(0);
         let p = &self.pairs[ix];
         let pa = p.w.address_ref().clone();
         s.bal1 = self.bal(&pa, &tok_bytes(p.t1));
@@ -259,8 +340,21 @@ impl RouterWorld {
         let (mut active, mut cre, mut tpl) = (false, false, false);
         let mut keys: Vec<(Vec<u8>, Vec<u8>)> = vec![];
         let mut addrs: Vec<Address> = vec![];
+        let mut wl: Vec<Vec<u8>> = vec![];
+        let mut cfg: Vec<(u64, Vec<u8>, BigUint, u64)> = vec![];
+        let cfg_toks = self.cfg_toks();
         self.b
             .execute_query(&self.router, |sc| {
+                for t in sc.common_tokens_for_user_pairs().iter() {
+                    wl.push(t.to_boxed_bytes().as_slice().to_vec());
+                }
+                for t in cfg_toks.iter() {
+                    let m = sc.enable_swap_by_user_config(&managed_token_id!(tok_bytes(*t as usize)));
+                    if !m.is_empty() {
+                        let c = m.get();
+                        cfg.push((*t, c.locked_token_id.to_boxed_bytes().as_slice().to_vec(), to_big(&c.min_locked_token_value), c.min_lock_period_epochs));
+                    }
+                }
                 active = sc.state().get();
                 cre = sc.pair_creation_enabled().get();
                 tpl = !sc.pair_template_address().is_empty();
@@ -278,6 +372,9 @@ impl RouterWorld {
         s.active = active;
         s.cre = cre;
         s.tpl = tpl;
+        s.epoch = self.epoch;
+        s.wl = wl.iter().map(|t| tok_id(t)).collect();
+        s.cfg = cfg.into_iter().map(|(t, l, m, p)| (t, tok_id(&l), m, p)).collect();
         s.reg_addrs = addrs.iter().map(|a| self.id_of(a)).collect();
         for (i, k) in keys.iter().enumerate() {
             let a = s.reg_addrs.get(i).copied().unwrap_or(0);
@@ -289,6 +386,15 @@ impl RouterWorld {
             let x = self.bal(&ra, &tok_bytes(t));
             tot.push(x.clone());
             s.rb.push(x);
+        }
+        for k in self.lkeys.iter() {
+            s.rlk.push(self.b.get_esdt_balance(&ra, &tok_bytes(k.coll as usize), k.nonce));
+        }
+        // pool tokens locked in the simple-lock contracts still exist
+        for l in self.locks.iter() {
+            for t in 1..=self.ntok {
+                tot[t - 1] += self.bal(l.address_ref(), &tok_bytes(t));
+            }
         }
         for ix in 0..self.pairs.len() {
             let lp = self.pairs[ix].lp.clone();
@@ -312,7 +418,11 @@ impl RouterWorld {
             for p in self.pairs.iter() {
                 lb.push(self.bal(&a, &p.lp));
             }
-            s.users.push((tb, lb));
+            let mut kb = vec![];
+            for k in self.lkeys.iter() {
+                kb.push(self.b.get_esdt_balance(&a, &tok_bytes(k.coll as usize), k.nonce));
+            }
+            s.users.push((tb, lb, kb));
         }
         for t in 1..=self.ntok {
             s.burn.push(if self.init_tot.is_empty() { BigUint::zero() } else { &self.init_tot[t - 1] - &tot[t - 1] });
@@ -344,16 +454,19 @@ impl RouterWorld {
                 1 => "active",
                 _ => "partial",
             };
-            ps.push(format!("{}:{}:{}:{}:{}:{}:{}:{}:{}:{}", p.id, p.t1, p.t2, st, q.r1, q.r2, q.s, q.bal1, q.bal2, q.own));
+            ps.push(format!("{}:{}:{}:{}:{}:{}:{}:{}:{}:{}:{}:{}:{}", p.id, p.t1, p.t2, st, q.r1, q.r2, q.s, q.bal1, q.bal2, q.own, q.total, q.special, q.adder));
         }
         let mut us = vec![];
         for (i, id) in self.accts.iter().enumerate() {
-            us.push(format!("{}:{}:{}", id, Self::join(&s.users[i].0), Self::or_dash(Self::join(&s.users[i].1))));
+            us.push(format!("{}:{}:{}:{}", id, Self::join(&s.users[i].0), Self::or_dash(Self::join(&s.users[i].1)), Self::or_dash(Self::join(&s.users[i].2))));
         }
+        let wl = Self::or_dash(s.wl.iter().map(|t| t.to_string()).collect::<Vec<_>>().join(","));
+        let cfg = Self::or_dash(s.cfg.iter().map(|c| format!("{}:{}:{}:{}", c.0, c.1, c.2, c.3)).collect::<Vec<_>>().join(","));
+        let lks = Self::or_dash(self.lkeys.iter().map(|k| format!("{}/{}/{}", k.coll, k.orig, k.unlock)).collect::<Vec<_>>().join(","));
         format!(
-            "act={} cre={} tpl={} reg={} rb={} burn={} pairs={} users={}",
-            s.active as u8, s.cre as u8, s.tpl as u8, reg, Self::join(&s.rb), Self::join(&s.burn),
-            Self::or_dash(ps.join(";")), us.join(";")
+            "act={} cre={} tpl={} ep={} reg={} rb={} rlk={} burn={} wl={} cfg={} lks={} pairs={} users={}",
+            s.active as u8, s.cre as u8, s.tpl as u8, s.epoch, reg, Self::join(&s.rb), Self::or_dash(Self::join(&s.rlk)),
+            Self::join(&s.burn), wl, cfg, lks, Self::or_dash(ps.join(";")), us.join(";")
         )
     }
 
@@ -417,8 +530,8 @@ impl RouterWorld {
             }
         }
         // the router never keeps anything
-        if s.rb.iter().any(|x| !x.is_zero()) || s.rlp.iter().any(|x| !x.is_zero()) {
-            tr.fail("C14", "router_keeps_nothing", site, &format!("router balances {:?} lp {:?}", s.rb, s.rlp));
+        if s.rb.iter().any(|x| !x.is_zero()) || s.rlp.iter().any(|x| !x.is_zero()) || s.rlk.iter().any(|x| !x.is_zero()) {
+            tr.fail("C14", "router_keeps_nothing", site, &format!("router balances {:?} lp {:?} locked {:?}", s.rb, s.rlp, s.rlk));
         }
     }
 
@@ -627,6 +740,21 @@ impl World for RouterWorld {
             }
         })
         .assert_ok();
+        // two real simple-lock contracts, set up as in the repo's own router test
+        let mut locks: Vec<LockW> = vec![];
+        for coll in [LOCK_A, LOCK_B] {
+            let lw: LockW = b.create_sc_account(&zero, Some(&owner), lock_builder as fn() -> LockObj, "simple-lock.wasm");
+            let tb = tok_bytes(coll as usize);
+            let tb2 = tb.clone();
+            b.execute_tx(&owner, &lw, &zero, |sc| {
+                sc.init();
+                sc.locked_token().set_token_id(managed_token_id!(tb2));
+            })
+            .assert_ok();
+            b.set_esdt_local_roles(lw.address_ref(), &tb, &[EsdtLocalRole::NftCreate, EsdtLocalRole::NftAddQuantity, EsdtLocalRole::NftBurn]);
+            locks.push(lw);
+        }
+        b.set_block_epoch(0);
         let mut only_owner = HashMap::new();
         for e in router::AbiProvider::abi().endpoints.iter() {
             only_owner.insert(e.name.to_string(), e.only_owner);
@@ -644,6 +772,7 @@ impl World for RouterWorld {
         let mut w = RouterWorld {
             b, owner, users, stranger, router, template, pairs: vec![], ids, ntok, funds, accts,
             init_tot: vec![], next_dest: 0, only_owner, pending: vec![],
+            locks, lkeys: vec![], epoch: 0, owner_paused: HashSet::new(),
         };
         // foreign pairs: real pair contracts deployed outside the router, naming the router as theirs
         let fspec = kv(header, "foreign").unwrap_or("-").to_string();
@@ -717,8 +846,20 @@ impl World for RouterWorld {
             if q.s.is_zero() && rng.chance(1, 2) {
                 return ('O', self.gen_liquidity(rng, &s, ix, u));
             }
-            if !q.s.is_zero() && q.state != 1 && rng.chance(6, 10) {
-                return ('O', format!("resume {} {}", owner_or(rng, 92), self.pairs[ix].id));
+            if !q.s.is_zero() && q.state != 1 {
+                if q.adder != 0 {
+                    // a pair whose swaps the initial liquidity adder may enable himself: mostly let the
+                    // user scenario run (on an owner-paused pair it ends in a call that must be refused)
+                    let go = if q.state == 2 { 65 } else { 45 };
+                    if rng.chance(go, 100) {
+                        return ('O', self.gen_enable_step(rng, &s, ix));
+                    }
+                    if rng.chance(if q.state == 2 { 15 } else { 50 }, 100) {
+                        return ('O', format!("resume {} {}", owner_or(rng, 92), self.pairs[ix].id));
+                    }
+                } else if rng.chance(6, 10) {
+                    return ('O', format!("resume {} {}", owner_or(rng, 92), self.pairs[ix].id));
+                }
             }
         }
 
@@ -732,6 +873,11 @@ impl World for RouterWorld {
             34,    // 6 multi
             6,     // 7 queries
             3,     // 8 malformed
+            4,     // 9 enable-by-user configuration (owner and others)
+            5,     // 10 lock / unlock in the simple-lock contracts
+            7,     // 11 setSwapEnabledByUser by holders of locked tokens, pairs in any state
+            3,     // 12 epoch advance
+            3,     // 13 owner pauses a pair whose adder holds locked LP tokens, the adder tries to re-enable
         ];
         match rng.weighted(&weights) {
             0 => {
@@ -828,7 +974,47 @@ impl World for RouterWorld {
                 ('O', self.gen_liquidity(rng, &s, ix, u))
             }
             6 => self.gen_multi(rng, &s, u, &registered, &unregistered),
-            7 => match rng.below(3) {
+            9 => ('O', self.gen_cfg(rng, &s)),
+            10 => ('O', self.gen_lock(rng, &s, u)),
+            11 => {
+                if !registered.is_empty() && rng.chance(1, 3) {
+                    let ix = *rng.pick(&registered);
+                    return ('O', self.gen_enable_step(rng, &s, ix));
+                }
+                ('O', self.gen_enable_any(rng, &s, u))
+            }
+            12 => ('O', format!("advance {}", s.epoch + *rng.pick(&[1u64, 1, 1, 2, 3, 5, 20]))),
+            13 => {
+                // an adder holding locked LP tokens of his (registered, live) pair
+                let mut c: Vec<(usize, u64, usize, BigUint)> = vec![];
+                for &ix in registered.iter() {
+                    let q = &s.pairs[ix];
+                    if q.adder == 0 || q.s.is_zero() {
+                        continue;
+                    }
+                    if let Some(ai) = self.acct_ix(q.adder) {
+                        for (ki, key) in self.lkeys.iter().enumerate() {
+                            if key.orig == self.pairs[ix].id && !s.users[ai].2[ki].is_zero() {
+                                c.push((ix, q.adder, ki, s.users[ai].2[ki].clone()));
+                            }
+                        }
+                    }
+                }
+                if c.is_empty() {
+                    return ('O', self.gen_lock(rng, &s, u));
+                }
+                let (ix, adder, ki, bal) = rng.pick(&c).clone();
+                let key = self.lkeys[ki].clone();
+                let id = self.pairs[ix].id;
+                self.pending.push(format!("enableByUser {} {} {} {} {} {}", adder, id, key.coll, key.orig, key.unlock, bal));
+                if rng.chance(1, 3) {
+                    // something harmless in between
+                    self.pending.push(format!("advance {}", s.epoch));
+                }
+                ('O', format!("pause {} {}", OWNER, id))
+            }
+            7 => match rng.below(4) {
+                3 => ('Q', format!("enableCfg {}", if !s.wl.is_empty() && rng.chance(2, 3) { *rng.pick(&s.wl) } else { rng.range(0, k + 1) })),
                 0 => ('Q', format!("getPair {} {}", rng.range(0, k + 1), rng.range(0, k + 1))),
                 _ if !self.pairs.is_empty() => {
                     let ix = rng.below(self.pairs.len() as u64) as usize;
@@ -863,6 +1049,7 @@ impl World for RouterWorld {
         let mut out_addr: u64 = 0;
         let mut out_pays: Vec<(u64, BigUint)> = vec![];
         let mut out_v = (BigUint::zero(), BigUint::zero(), BigUint::zero());
+        let mut out_back: Option<(u64, u64, u64, BigUint)> = None;
         let pu = |s: &str| -> u64 { s.parse().unwrap() };
         let ok: bool = match w[0] {
             "createPair" => {
@@ -1268,6 +1455,228 @@ impl World for RouterWorld {
                     }
                 }
             }
+            "cfgEnable" => {
+                let (c, common, locked, mv, mp) = (pu(w[1]), pu(w[2]) as usize, pu(w[3]) as usize, big(w[4]), pu(w[5]));
+                let ca = self.addr_of(c);
+                let oo = self.oo("configEnableByUserParameters");
+                let ok = self.b.execute_tx(&ca, &self.router, &zero, |sc| {
+                    if oo {
+                        sc.blockchain().check_caller_is_owner();
+                    }
+                    sc.config_enable_by_user_parameters(managed_token_id!(tok_bytes(common)), managed_token_id!(tok_bytes(locked)), mbig(&mv), mp);
+                }).result_status == 0;
+                if ok {
+                    if c != OWNER {
+                        tr.fail("C14", "enable_config_owner_only", &site, &format!("caller {c} configured enable-by-user for token {common}"));
+                    }
+                    if !pre.wl.contains(&(common as u64)) || tok_id(&tok_bytes(common)) == 0 || tok_id(&tok_bytes(locked)) == 0 {
+                        tr.fail("C14", "enable_config_guards", &site, &format!("config accepted for common {common} locked {locked}, whitelist {:?}", pre.wl));
+                    }
+                } else if c != OWNER {
+                    tr.count("branch.cfg_non_owner_rejected");
+                }
+                ok
+            }
+            "addCommon" | "removeCommon" => {
+                let c = pu(w[1]);
+                let toks: Vec<usize> = w[2..].iter().map(|x| pu(x) as usize).collect();
+                let ca = self.addr_of(c);
+                let add = w[0] == "addCommon";
+                let oo = self.oo(if add { "addCommonTokensForUserPairs" } else { "removeCommonTokensForUserPairs" });
+                let ok = self.b.execute_tx(&ca, &self.router, &zero, |sc| {
+                    if oo {
+                        sc.blockchain().check_caller_is_owner();
+                    }
+                    let mut mv = MultiValueEncoded::new();
+                    for t in toks.iter() {
+                        mv.push(managed_token_id!(tok_bytes(*t)));
+                    }
+                    if add {
+                        sc.add_common_tokens_for_user_pairs(mv);
+                    } else {
+                        sc.remove_common_tokens_for_user_pairs(mv);
+                    }
+                }).result_status == 0;
+                if ok && c != OWNER {
+                    tr.fail("C14", "enable_config_owner_only", &site, &format!("caller {c} changed the common-token whitelist"));
+                }
+                if !ok && c != OWNER {
+                    tr.count("branch.cfg_non_owner_rejected");
+                }
+                ok
+            }
+            "advance" => {
+                let e = pu(w[1]);
+                if e < self.epoch {
+                    false
+                } else {
+                    self.epoch = e;
+                    self.b.set_block_epoch(e);
+                    true
+                }
+            }
+            "lock" => {
+                let (u, coll, orig, amount, unlock) = (pu(w[1]), pu(w[2]), pu(w[3]), big(w[4]), pu(w[5]));
+                let ua = self.addr_of(u);
+                match Self::lock_ix(coll) {
+                    Some(li) if !amount.is_zero() => {
+                        let ab = self.asset_bytes(orig);
+                        let mut got: (Vec<u8>, u64, BigUint) = (vec![], 0, BigUint::zero());
+                        let r = self.b.execute_esdt_transfer(&ua, &self.locks[li], &ab, 0, &amount, |sc| {
+                            let p = sc.lock_tokens_endpoint(unlock, OptionalValue::None);
+                            got = (p.token_identifier.into_name().to_boxed_bytes().as_slice().to_vec(), p.token_nonce, to_big(&p.amount));
+                        });
+                        let ok = r.result_status == 0;
+                        if ok {
+                            if got.1 == 0 {
+                                // the epoch has passed: the payment came straight back
+                                out_pays = vec![(orig, got.2.clone())];
+                                tr.count("branch.lock_passthrough");
+                            } else {
+                                match self.lkey_ix(coll, orig, unlock) {
+                                    Some(i) => {
+                                        if self.lkeys[i].nonce != got.1 {
+                                            tr.fail("C14", "lock_class_nonce_stable", &site, &format!("class {coll}/{orig}/{unlock} had nonce {} now {}", self.lkeys[i].nonce, got.1));
+                                        }
+                                    }
+                                    None => self.lkeys.push(LKey { coll, orig, unlock, nonce: got.1 }),
+                                }
+                                if tok_id(&got.0) != coll {
+                                    tr.fail("C14", "lock_returns_locked_token", &site, &format!("got token {}", String::from_utf8_lossy(&got.0)));
+                                }
+                                out_back = Some((coll, orig, unlock, got.2.clone()));
+                                if orig >= FOREIGN_BASE {
+                                    tr.count("branch.lock_lp");
+                                }
+                            }
+                        }
+                        ok
+                    }
+                    _ => false,
+                }
+            }
+            "unlock" => {
+                let (u, coll, orig, unlock, amount) = (pu(w[1]), pu(w[2]), pu(w[3]), pu(w[4]), big(w[5]));
+                let ua = self.addr_of(u);
+                match (Self::lock_ix(coll), self.lkey_ix(coll, orig, unlock)) {
+                    (Some(li), Some(ki)) if !amount.is_zero() => {
+                        let nonce = self.lkeys[ki].nonce;
+                        let mut got: (Vec<u8>, BigUint) = (vec![], BigUint::zero());
+                        let r = self.b.execute_esdt_transfer(&ua, &self.locks[li], &tok_bytes(coll as usize), nonce, &amount, |sc| {
+                            let p = sc.unlock_tokens_endpoint(OptionalValue::None);
+                            got = (p.token_identifier.into_name().to_boxed_bytes().as_slice().to_vec(), to_big(&p.amount));
+                        });
+                        let ok = r.result_status == 0;
+                        if ok {
+                            out_pays = vec![(tok_id(&got.0), got.1.clone())];
+                        }
+                        ok
+                    }
+                    _ => false,
+                }
+            }
+            "enableByUser" => {
+                let (c, a, coll, orig, unlock, amount) = (pu(w[1]), pu(w[2]), pu(w[3]), pu(w[4]), pu(w[5]), big(w[6]));
+                let ca = self.addr_of(c);
+                let pa = self.addr_of(a);
+                let reasons = self.enable_reasons(&pre, c, a, coll, orig, unlock, &amount);
+                match self.lkey_ix(coll, orig, unlock) {
+                    Some(ki) if !amount.is_zero() => {
+                        let nonce = self.lkeys[ki].nonce;
+                        let r = self.b.execute_esdt_transfer(&ca, &self.router, &tok_bytes(coll as usize), nonce, &amount, |sc| {
+                            sc.set_swap_enabled_by_user(managed_address!(&pa));
+                        });
+                        let ok = r.result_status == 0;
+                        if !ok && std::env::var("VERIF_ERRLOG").is_ok() {
+                            eprintln!("ENABLEERR {} :: {} :: {:?}", r.result_message, text, reasons);
+                        }
+                        if ok {
+                            tr.count("branch.enable_ok");
+                            // (a) what a successful call implies, from the property text
+                            for why in reasons.iter() {
+                                tr.fail("C14", "enable_requires", &site, &format!("setSwapEnabledByUser succeeded although: {why}"));
+                                if why.starts_with("state_") {
+                                    tr.fail("C19", "enable_requires_partial_active", &site, &format!("setSwapEnabledByUser succeeded although: {why}"));
+                                }
+                            }
+                            // (b) its effect
+                            let post = self.snap();
+                            if let Some(ix) = self.pair_ix(a) {
+                                let q = &post.pairs[ix];
+                                if q.state != 1 || q.total != USER_TOTAL_FEE || q.special != USER_SPECIAL_FEE {
+                                    tr.fail("C14", "enable_effect", &site, &format!("pair {a} after: state {} fees {}/{}", q.state, q.total, q.special));
+                                }
+                                let mut exp = pre.clone();
+                                exp.pairs[ix].state = 1;
+                                exp.pairs[ix].total = USER_TOTAL_FEE;
+                                exp.pairs[ix].special = USER_SPECIAL_FEE;
+                                if exp != post {
+                                    tr.fail("C14", "enable_effect", &site, "something else than the pair's state and fee percents changed (locked tokens not returned in full?)");
+                                }
+                            }
+                            if post.rlk.iter().any(|x| !x.is_zero()) {
+                                tr.fail("C14", "enable_effect", &site, &format!("router kept locked tokens {:?}", post.rlk));
+                            }
+                            if let Some(ci) = self.acct_ix(c) {
+                                // returned = what the caller holds now − (what it held − what it sent)
+                                let back = &post.users[ci].2[ki] + &amount - &pre.users[ci].2[ki];
+                                out_back = Some((coll, orig, unlock, back));
+                            }
+                        } else {
+                            for why in reasons.iter() {
+                                tr.count(&format!("branch.enable_reason.{}", why));
+                            }
+                            match reasons.first() {
+                                Some(why) => {
+                                    tr.count(&format!("branch.enable_rej.{}", why));
+                                    if reasons.len() == 1 {
+                                        tr.count(&format!("branch.enable_rej_only.{}", why));
+                                    }
+                                }
+                                None => tr.fail("C14", "enable_no_extra_failure", &site, "every documented condition holds, yet setSwapEnabledByUser failed"),
+                            }
+                        }
+                        ok
+                    }
+                    _ => {
+                        tr.count("branch.enable_rej.no_such_locked_token");
+                        false
+                    }
+                }
+            }
+            "enablePlain" => {
+                let (c, a, t, amount) = (pu(w[1]), pu(w[2]), pu(w[3]), big(w[4]));
+                let ca = self.addr_of(c);
+                let pa = self.addr_of(a);
+                if amount.is_zero() {
+                    false
+                } else {
+                    let ab = self.asset_bytes(t);
+                    let ok = self.b.execute_esdt_transfer(&ca, &self.router, &ab, 0, &amount, |sc| {
+                        sc.set_swap_enabled_by_user(managed_address!(&pa));
+                    }).result_status == 0;
+                    if ok {
+                        tr.fail("C14", "enable_requires", &site, &format!("setSwapEnabledByUser succeeded with the plain token {t}"));
+                    } else {
+                        tr.count("branch.enable_rej.plain_token");
+                    }
+                    ok
+                }
+            }
+            "bad" if w[1] == "enableNoPayment" => {
+                let (u, a) = (pu(w[2]), pu(w[3]));
+                let ua = self.addr_of(u);
+                let pa = self.addr_of(a);
+                let ok = self.b.execute_tx(&ua, &self.router, &zero, |sc| {
+                    sc.set_swap_enabled_by_user(managed_address!(&pa));
+                }).result_status == 0;
+                if ok {
+                    tr.fail("C14", "enable_requires", &site, "setSwapEnabledByUser succeeded without a payment");
+                } else {
+                    tr.count("branch.enable_rej.no_payment");
+                }
+                ok
+            }
             "bad" => {
                 let u = pu(w[2]);
                 let ua = self.addr_of(u);
@@ -1306,10 +1715,43 @@ impl World for RouterWorld {
             }
         }
         self.oracle_registry(tr, &site, &post);
+        // (c) a pair the owner paused stays Inactive until the owner resumes it
+        let owner_state_op = ok && (w[0] == "pause" || w[0] == "resume") && pu(w[1]) == OWNER;
+        if !owner_state_op {
+            let paused: Vec<u64> = self.owner_paused.iter().copied().collect();
+            for id in paused {
+                if let Some(ix) = self.pair_ix(id) {
+                    if post.pairs[ix].state != 0 {
+                        let st = if post.pairs[ix].state == 1 { "Active" } else { "PartialActive" };
+                        let d = format!("pair {id} was paused by the owner and is {st} after `{text}`");
+                        tr.fail("C14", "paused_stays_paused", &site, &d);
+                        tr.fail("C19", "paused_stays_paused", &site, &d);
+                        self.owner_paused.remove(&id);
+                    }
+                }
+            }
+            if !self.owner_paused.is_empty() {
+                tr.count("branch.op_while_some_pair_owner_paused");
+            }
+        } else {
+            let a = pu(w[2]);
+            if let Some(ix) = self.pair_ix(a) {
+                if w[0] == "pause" && !post.pairs[ix].s.is_zero() {
+                    self.owner_paused.insert(a);
+                }
+                if w[0] == "resume" {
+                    self.owner_paused.remove(&a);
+                }
+            }
+        }
         if ok {
             tr.count(&format!("ok.{}", site));
             let pays = Self::or_dash(out_pays.iter().map(|(t, x)| format!("{t}:{x}")).collect::<Vec<_>>().join(","));
-            let outs = format!("a={} p={} v={},{},{}", out_addr, pays, out_v.0, out_v.1, out_v.2);
+            let back = match &out_back {
+                Some((c, o, u, x)) => format!("{c}/{o}/{u}:{x}"),
+                None => "-".to_string(),
+            };
+            let outs = format!("a={} p={} v={},{},{} lk={}", out_addr, pays, out_v.0, out_v.1, out_v.2, back);
             let line = self.state_line(&post);
             tr.res_ok(n, &outs, &line);
         } else {
@@ -1353,6 +1795,17 @@ impl World for RouterWorld {
                     }
                 }
             }
+            "enableCfg" => {
+                let t = pu(w[1]) as usize;
+                let mut got: (Vec<u8>, BigUint, u64) = (vec![], BigUint::zero(), 0);
+                let r = self.b.execute_query(&self.router, |sc| {
+                    let c = sc.try_get_config(&managed_token_id!(tok_bytes(t)));
+                    got = (c.locked_token_id.to_boxed_bytes().as_slice().to_vec(), to_big(&c.min_locked_token_value), c.min_lock_period_epochs);
+                });
+                if r.result_status == 0 {
+                    val = Some(format!("{} {} {}", tok_id(&got.0), got.1, got.2));
+                }
+            }
             other => panic!("unknown view {other}"),
         }
         match val {
@@ -1364,6 +1817,341 @@ impl World for RouterWorld {
 
 // --- generator helpers ---------------------------------------------------------------------
 impl RouterWorld {
+    /// Why `setSwapEnabledByUser(a)` by `c` paying `amount` of the locked class must be refused,
+    /// in the words of the property (evaluated on the state observed before the call, never on
+    /// the model): empty = every documented condition holds.
+    fn enable_reasons(&self, pre: &Snap, c: u64, a: u64, coll: u64, orig: u64, unlock: u64, amount: &BigUint) -> Vec<String> {
+        let mut why: Vec<String> = vec![];
+        let held = match (self.acct_ix(c), self.lkey_ix(coll, orig, unlock)) {
+            (Some(ci), Some(ki)) => pre.users[ci].2.get(ki).cloned().unwrap_or_default(),
+            _ => BigUint::zero(),
+        };
+        if &held < amount || amount.is_zero() {
+            why.push("insufficient_funds".into());
+        }
+        if !pre.active {
+            why.push("router_paused".into());
+        }
+        if !pre.reg_addrs.contains(&a) {
+            why.push("unregistered".into());
+        }
+        let ix = match self.pair_ix(a) {
+            Some(ix) => ix,
+            None => return why,
+        };
+        let (p, q) = (&self.pairs[ix], &pre.pairs[ix]);
+        match (q.state, q.s.is_zero()) {
+            (0, true) => why.push("state_inactive_fresh".into()),
+            (0, false) => why.push("state_inactive_paused".into()),
+            (1, _) => why.push("state_active".into()),
+            _ => {}
+        }
+        if orig != a {
+            why.push("wrong_lp".into());
+        }
+        let common = if pre.wl.contains(&(p.t1 as u64)) {
+            Some((p.t1 as u64, &q.r1))
+        } else if pre.wl.contains(&(p.t2 as u64)) {
+            Some((p.t2 as u64, &q.r2))
+        } else {
+            None
+        };
+        match common {
+            None => why.push("no_common_token".into()),
+            Some((ct, reserve)) => match pre.cfg.iter().find(|x| x.0 == ct) {
+                None => why.push("no_config".into()),
+                Some(cfg) => {
+                    if cfg.1 != coll {
+                        why.push("wrong_locked_token".into());
+                    }
+                    let value = if q.s.is_zero() { BigUint::zero() } else { amount * reserve / &q.s };
+                    if value < cfg.2 {
+                        why.push("low_value".into());
+                    }
+                    let remaining = if pre.epoch < unlock { unlock - pre.epoch } else { 0 };
+                    if remaining < cfg.3 {
+                        why.push("short_lock".into());
+                    }
+                }
+            },
+        }
+        if q.adder == 0 || q.adder != c {
+            why.push("not_adder".into());
+        }
+        why
+    }
+
+    /// (common token, its reserve) the router would value pair `ix`'s LP tokens in
+    fn common_of<'a>(&self, s: &'a Snap, ix: usize) -> Option<(u64, &'a BigUint)> {
+        let p = &self.pairs[ix];
+        if s.wl.contains(&(p.t1 as u64)) {
+            Some((p.t1 as u64, &s.pairs[ix].r1))
+        } else if s.wl.contains(&(p.t2 as u64)) {
+            Some((p.t2 as u64, &s.pairs[ix].r2))
+        } else {
+            None
+        }
+    }
+
+    /// the next step of the scenario "the initial liquidity adder of pair `ix` enables swaps":
+    /// whitelist a common token, configure, lock LP tokens, call setSwapEnabledByUser — each with
+    /// boundary / malformed variants.  Does not look at the pair's state, so the same chain ends
+    /// in an otherwise valid call on Inactive / Active pairs too.
+    fn gen_enable_step(&mut self, rng: &mut Rng, s: &Snap, ix: usize) -> String {
+        let p = &self.pairs[ix];
+        let q = &s.pairs[ix];
+        let nu = self.users.len() as u64;
+        let k = self.ntok as u64;
+        let one = BigUint::one();
+        let owner_or = |rng: &mut Rng, p_owner: u64| -> u64 { if rng.chance(p_owner, 100) { OWNER } else { rng.range(1, nu) } };
+        let (ct, reserve) = match self.common_of(s, ix) {
+            None => {
+                let toks = match rng.below(8) {
+                    0 => format!("{} {}", p.t1, p.t2),
+                    1 => format!("{} 0", p.t2), // one invalid id reverts the whole call
+                    2..=4 => format!("{}", p.t1),
+                    _ => format!("{}", p.t2),
+                };
+                return format!("addCommon {} {}", owner_or(rng, 92), toks);
+            }
+            Some(x) => x,
+        };
+        let adder = if q.adder != 0 { q.adder } else { rng.range(1, nu) };
+        let ai = self.acct_ix(adder).unwrap_or(0);
+        let lp_have = s.users[ai].1[ix].clone();
+        let locked: Vec<(usize, BigUint)> = self.lkeys.iter().enumerate()
+            .filter(|(i, key)| key.orig == p.id && !s.users[ai].2[*i].is_zero())
+            .map(|(i, _)| (i, s.users[ai].2[i].clone()))
+            .collect();
+        let total_lp: BigUint = &lp_have + locked.iter().map(|x| x.1.clone()).sum::<BigUint>();
+        let value_of = |lp: &BigUint| -> BigUint { if q.s.is_zero() { BigUint::zero() } else { lp * reserve / &q.s } };
+        let value_all = value_of(&total_lp);
+        let new_cfg = |rng: &mut Rng| -> String {
+            let coll = match rng.below(20) {
+                0 => 0,
+                1 => rng.range(1, k + 1),
+                2 | 3 => LOCK_B,
+                _ => LOCK_A,
+            };
+            let mv = match rng.below(10) {
+                0 => BigUint::zero(),
+                1 => one.clone(),
+                2 | 3 => &value_all / 2u32,
+                4..=7 => value_all.clone(),
+                8 => &value_all + &one,
+                _ => rng.magnitude(12),
+            };
+            let mp = *rng.pick(&[0u64, 1, 1, 3, 5, 10]);
+            format!("cfgEnable {} {} {} {} {}", owner_or(rng, 92), ct, coll, mv, mp)
+        };
+        let cfg = match s.cfg.iter().find(|x| x.0 == ct) {
+            None => {
+                if !lp_have.is_zero() && rng.chance(15, 100) {
+                    // locked LP tokens first, no config yet: "No config set" is the only obstacle
+                    let unlock = s.epoch + rng.range(1, 8);
+                    self.pending.push(format!("enableByUser {} {} {} {} {} {}", adder, p.id, LOCK_A, p.id, unlock, lp_have));
+                    return format!("lock {} {} {} {} {}", adder, LOCK_A, p.id, lp_have, unlock);
+                }
+                return new_cfg(rng);
+            }
+            Some(c) => c.clone(),
+        };
+        let remaining = |unlock: u64| -> u64 { if s.epoch < unlock { unlock - s.epoch } else { 0 } };
+        let good: Vec<(usize, BigUint)> = locked.iter()
+            .filter(|(i, bal)| self.lkeys[*i].coll == cfg.1 && remaining(self.lkeys[*i].unlock) >= cfg.3 && value_of(bal) >= cfg.2)
+            .cloned()
+            .collect();
+        if !good.is_empty() || (!locked.is_empty() && rng.chance(1, 6)) {
+            let (ki, bal) = if !good.is_empty() { rng.pick(&good).clone() } else { rng.pick(&locked).clone() };
+            let key = self.lkeys[ki].clone();
+            let txt = |c: u64, a: u64, x: &BigUint| format!("enableByUser {} {} {} {} {} {}", c, a, key.coll, key.orig, key.unlock, x);
+            return match rng.below(27) {
+                20 | 25 | 26 => {
+                    // another user provides liquidity (doubling the pool mints exactly S LP tokens), locks
+                    // them just as well and calls: everything holds except "caller is the adder"
+                    let v = adder % nu + 1;
+                    let unlock = s.epoch + cfg.3 + rng.range(0, 3);
+                    self.pending.push(format!("enableByUser {} {} {} {} {} {}", v, p.id, cfg.1, p.id, unlock, q.s));
+                    self.pending.push(format!("lock {} {} {} {} {}", v, cfg.1, p.id, q.s, unlock));
+                    format!("addLiq {} {} {} {} 1 1", v, p.id, q.r1, q.r2)
+                }
+                21 => {
+                    // the right collection, enough value, long enough — wrapping a pool token, not the LP token
+                    let unlock = s.epoch + cfg.3 + rng.range(0, 3);
+                    self.pending.push(format!("enableByUser {} {} {} {} {} {}", adder, p.id, cfg.1, p.t1, unlock, bal));
+                    format!("lock {} {} {} {} {}", adder, cfg.1, p.t1, bal, unlock)
+                }
+                22 => {
+                    // the owner takes the common tokens off the whitelist first
+                    self.pending.push(txt(adder, p.id, &bal));
+                    format!("removeCommon {} {} {}", OWNER, p.t1, p.t2)
+                }
+                23 if cfg.3 > 0 && key.unlock >= cfg.3 && key.unlock - cfg.3 + 1 > s.epoch => {
+                    // time passes until the remaining lock is one epoch short
+                    self.pending.push(txt(adder, p.id, &bal));
+                    format!("advance {}", key.unlock - cfg.3 + 1)
+                }
+                24 => {
+                    // the router itself is paused
+                    self.pending.push(txt(adder, p.id, &bal));
+                    format!("pause {} {}", OWNER, ROUTER)
+                }
+                0 => txt(adder % nu + 1, p.id, &bal),                 // somebody who does not hold it
+                1 => txt(adder, p.id, &one),                          // too little value (unless min is tiny)
+                2 => txt(adder, p.id, &(&bal + &one)),                // more than held
+                3 => format!("enablePlain {} {} {} {}", adder, p.id, if rng.chance(1, 2) { p.id } else { p.t1 as u64 }, rng.range(1, 1000)),
+                4 => {
+                    let other = self.pairs[rng.below(self.pairs.len() as u64) as usize].id;
+                    txt(adder, other, &bal)                            // another (or an unregistered) pair
+                }
+                5 => format!("bad enableNoPayment {} {}", adder, p.id),
+                6 => txt(adder, *rng.pick(&[ROUTER, TEMPLATE, STRANGER, 1]), &bal), // not a pair at all
+                _ => txt(adder, p.id, &bal),
+            };
+        }
+        if !lp_have.is_zero() && Self::lock_ix(cfg.1).is_some() && value_all >= cfg.2 {
+            // lock enough LP tokens for long enough (or just not)
+            let need_lp = if reserve.is_zero() { lp_have.clone() } else { (&cfg.2 * &q.s + reserve - &one) / reserve };
+            let amount = match rng.below(10) {
+                0..=5 => lp_have.clone(),
+                6 | 7 => need_lp.clone().min(lp_have.clone()).max(one.clone()),
+                8 => if need_lp > one { (&need_lp - &one).min(lp_have.clone()) } else { one.clone() },
+                _ => rng.big_range(&one, &lp_have),
+            };
+            let unlock = match rng.below(10) {
+                0..=4 => s.epoch + cfg.3,
+                5..=7 => s.epoch + cfg.3 + rng.range(1, 6),
+                8 => (s.epoch + cfg.3).saturating_sub(1),
+                _ => s.epoch + rng.range(0, 12),
+            };
+            if rng.chance(8, 100) {
+                // the other simple-lock's collection: only "Invalid locked token" stands in the way
+                let other = if cfg.1 == LOCK_A { LOCK_B } else { LOCK_A };
+                let unlock = s.epoch + cfg.3 + rng.range(0, 3);
+                self.pending.push(format!("enableByUser {} {} {} {} {} {}", adder, p.id, other, p.id, unlock, lp_have));
+                return format!("lock {} {} {} {} {}", adder, other, p.id, lp_have, unlock);
+            }
+            return format!("lock {} {} {} {} {}", adder, cfg.1, p.id, amount, unlock);
+        }
+        if lp_have.is_zero() && locked.is_empty() {
+            // the adder owns no LP token of this pair (yet / any more)
+            return self.gen_liquidity(rng, s, ix, adder);
+        }
+        // the stored config cannot be met: the owner replaces it
+        new_cfg(rng)
+    }
+
+    /// `setSwapEnabledByUser` by whoever holds locked tokens, on whatever pair they wrap
+    fn gen_enable_any(&mut self, rng: &mut Rng, s: &Snap, u: u64) -> String {
+        let one = BigUint::one();
+        let mut holders: Vec<(u64, usize, BigUint)> = vec![];
+        for (ai, id) in self.accts.iter().enumerate() {
+            for (ki, _) in self.lkeys.iter().enumerate() {
+                if !s.users[ai].2[ki].is_zero() {
+                    holders.push((*id, ki, s.users[ai].2[ki].clone()));
+                }
+            }
+        }
+        if holders.is_empty() || self.pairs.is_empty() {
+            if self.pairs.is_empty() {
+                return format!("enablePlain {} {} 1 {}", u, PAIR_BASE, rng.range(1, 1000));
+            }
+            let p = &self.pairs[rng.below(self.pairs.len() as u64) as usize];
+            return match rng.below(3) {
+                0 => format!("enablePlain {} {} {} {}", u, p.id, p.t1, rng.range(1, 100000)),
+                1 => format!("bad enableNoPayment {} {}", u, p.id),
+                _ => format!("enableByUser {} {} {} {} {} {}", u, p.id, LOCK_A, p.id, s.epoch + 5, rng.range(1, 100000)),
+            };
+        }
+        let (c, ki, bal) = rng.pick(&holders).clone();
+        let key = self.lkeys[ki].clone();
+        let target = if key.orig >= FOREIGN_BASE && rng.chance(9, 10) { key.orig } else { self.pairs[rng.below(self.pairs.len() as u64) as usize].id };
+        let amount = match rng.below(10) {
+            0 => one.clone(),
+            1 => &bal / 2u32 + &one,
+            _ => bal.clone(),
+        };
+        format!("enableByUser {} {} {} {} {} {}", c, target, key.coll, key.orig, key.unlock, amount)
+    }
+
+    /// users lock (mostly LP) tokens in a simple-lock / unlock them again
+    fn gen_lock(&mut self, rng: &mut Rng, s: &Snap, u: u64) -> String {
+        let one = BigUint::one();
+        let k = self.ntok as u64;
+        if rng.chance(1, 4) {
+            // unlock: somebody holding locked tokens, mostly after the unlock epoch
+            let mut holders: Vec<(u64, usize, BigUint)> = vec![];
+            for (ai, id) in self.accts.iter().enumerate() {
+                for (ki, key) in self.lkeys.iter().enumerate() {
+                    if !s.users[ai].2[ki].is_zero() && (key.unlock <= s.epoch || rng.chance(1, 5)) {
+                        holders.push((*id, ki, s.users[ai].2[ki].clone()));
+                    }
+                }
+            }
+            if !holders.is_empty() {
+                let (c, ki, bal) = rng.pick(&holders).clone();
+                let key = &self.lkeys[ki];
+                let amount = if rng.chance(1, 6) { &bal + &one } else if rng.chance(1, 2) { bal.clone() } else { rng.big_range(&one, &bal) };
+                return format!("unlock {} {} {} {} {}", c, key.coll, key.orig, key.unlock, amount);
+            }
+        }
+        // lock: an account with LP tokens of some pair, for an epoch that suits that pair's config
+        let mut have: Vec<(u64, usize, BigUint)> = vec![];
+        for (ai, id) in self.accts.iter().enumerate() {
+            for ix in 0..self.pairs.len() {
+                if !s.users[ai].1[ix].is_zero() {
+                    have.push((*id, ix, s.users[ai].1[ix].clone()));
+                }
+            }
+        }
+        if have.is_empty() || rng.chance(1, 8) {
+            let coll = *rng.pick(&[LOCK_A, LOCK_A, LOCK_B, 0, 7]);
+            return format!("lock {} {} {} {} {}", u, coll, rng.range(1, k), rng.magnitude(20), s.epoch + rng.range(0, 8));
+        }
+        let (c, ix, bal) = rng.pick(&have).clone();
+        let cfg = self.common_of(s, ix).and_then(|(ct, _)| s.cfg.iter().find(|x| x.0 == ct).cloned());
+        let (coll, period) = match cfg {
+            Some(cf) if Self::lock_ix(cf.1).is_some() && rng.chance(9, 10) => (cf.1, cf.3),
+            _ => (if rng.chance(3, 4) { LOCK_A } else { LOCK_B }, rng.range(0, 5)),
+        };
+        let amount = match rng.below(6) {
+            0 => &bal + &one,
+            1 => rng.big_range(&one, &bal),
+            2 => &bal / 2u32 + &one,
+            _ => bal.clone(),
+        };
+        format!("lock {} {} {} {} {}", c, coll, self.pairs[ix].id, amount, s.epoch + period + rng.range(0, 3))
+    }
+
+    /// the owner-only configuration endpoints of the enable-by-user module, by anybody
+    fn gen_cfg(&mut self, rng: &mut Rng, s: &Snap) -> String {
+        let nu = self.users.len() as u64;
+        let k = self.ntok as u64;
+        let c = if rng.chance(70, 100) { OWNER } else { rng.range(1, nu) };
+        match rng.below(10) {
+            0..=3 => {
+                let n = rng.range(0, 3);
+                let toks: Vec<String> = (0..n).map(|_| (if rng.chance(1, 12) { 0 } else { rng.range(1, k + 1) }).to_string()).collect();
+                format!("addCommon {} {}", c, toks.join(" ")).trim_end().to_string()
+            }
+            4 | 5 => {
+                let n = rng.range(0, 2);
+                let toks: Vec<String> = (0..n).map(|_| (if !s.wl.is_empty() && rng.chance(3, 4) { *rng.pick(&s.wl) } else { rng.range(0, k + 1) }).to_string()).collect();
+                format!("removeCommon {} {}", c, toks.join(" ")).trim_end().to_string()
+            }
+            _ => {
+                let common = if !s.wl.is_empty() && rng.chance(8, 10) { *rng.pick(&s.wl) } else { rng.range(0, k + 1) };
+                let locked = match rng.below(12) {
+                    0 => 0,
+                    1 => rng.range(1, k + 1),
+                    2..=4 => LOCK_B,
+                    _ => LOCK_A,
+                };
+                let pw = rng.range(0, 24) as u32;
+                format!("cfgEnable {} {} {} {} {}", c, common, locked, rng.magnitude(pw) - BigUint::one(), *rng.pick(&[0u64, 0, 1, 2, 5, 10]))
+            }
+        }
+    }
     fn gen_liquidity(&mut self, rng: &mut Rng, s: &Snap, ix: usize, u: u64) -> String {
         let p = &self.pairs[ix];
         let q = &s.pairs[ix];
